@@ -423,6 +423,40 @@ def with_pos(opt, pos):
     return dict(opt, position=pos)
 
 
+def _position_sort_ref(args):
+    nonneg = sorted((e for e in args if e[0] is not None and e[0] >= 0), key=lambda e: e[0])
+    neg = sorted((e for e in args if e[0] is not None and e[0] < 0), key=lambda e: e[0])
+    return [e[1] for e in nonneg] + [e[1] for e in args if e[0] is None] + [e[1] for e in neg]
+
+
+def deductive_ordering(ctx):
+    """engine D: position_sort against its contract (loop invariants, bisect.insort trusted)"""
+    from contracts import ordering as O
+    from pyvc.verify import verify, summarize, concretize
+    from pydra.utils.general import position_sort
+
+    res = verify(ctx, O.position_sort_contract())
+
+    def replay(rec):
+        m = rec.get("model")
+        if m is None or not res.paths:
+            return None, False
+        st = res.paths[0][0]
+        args = concretize(m, st.env["__entry__"]["args"], st)
+        args = [(p, f"v{i}") for i, (p, _) in enumerate(args)]
+        pos = [p for p, _ in args if p is not None]
+        if len(set(pos)) != len(pos):
+            return {"args": args, "note": "model outside requires (duplicate positions)"}, False
+        try:
+            got = position_sort(list(args))
+        except Exception as e:  # noqa
+            got = f"raised {type(e).__name__}"
+        exp = _position_sort_ref(args)
+        return {"args": args, "got": got, "expected": exp}, got != exp
+
+    summarize(ctx, res, replay=replay)
+
+
 def run(ctx):
     ctx.level = "other"
     ctx.explanation = (
@@ -432,6 +466,7 @@ def run(ctx):
         "spec.shell.argv_ref (property text + docs; every open reading accepted). Four domains: all single-field definitions, "
         "two-field definitions (full cross), ordering with 3-4 fields over all position assignments, random 3-4 field mixes."
     )
+    deductive_ordering(ctx)
     rnd = random.Random(ctx.seed)
     job_stride = ctx.pick(10, 10)
     with Runner(ctx, procs=ctx.pick(8, 16)) as R:
